@@ -187,3 +187,6 @@ Print Assumptions C09_range_from_prefix_char.
 Print Assumptions C09_range_from_at_max.
 Print Assumptions C09_range_from_prefix_release.
 Print Assumptions C09_range_from_debug_panics_at_max.
+Print Assumptions C09_hypotheses_satisfiable.
+Print Assumptions C09_char_hypotheses_satisfiable.
+Print Assumptions C09_char_range_from_wraps_without_debug_assertions.
